@@ -288,6 +288,17 @@ class SymMap:
         return self._val(k)
 
     def get(self, k, default=None):
+        # scalar values with a scalar default: branch-free  ite(k in map, map[k], default)  (usable under quantifiers)
+        if default is not None and isinstance(self.vshape, SScalar) and isinstance(default, (int, float, bool, Sym)):
+            d = lift(default)
+            v = lift(self._val(k))
+            if d.sort() != v.sort():
+                if d.sort() == INT and v.sort() == REAL:
+                    d = z3.ToReal(d)
+                elif d.sort() == REAL and v.sort() == INT:
+                    v = z3.ToReal(v)
+            if d.sort() == v.sort():
+                return Sym(z3.If(self._dom(k), v, d))
         if ctx().decide(self._dom(k), "key-in-map"):
             return self._val(k)
         return default
